@@ -91,6 +91,14 @@ CHECKS = {
              'no other runs, every consumer received the object that is in the final config, both layouts evaluate equal.',
         note='Survivors are computed from the plain fold, not read from the implementation.',
         design='4/C10'),
+    'C11': dict(
+        technique='property-based testing (Hypothesis): validity walk of the result mirrored against the merged tree + snapshot invariants over generated histories of re-evaluations and mutations',
+        text='Merged trees (1-3 tagged stages, dynamic leaves of every kind) are evaluated; the result is walked for leaked nodes (also inside '
+             'partials and tuples), Bunch-ness and cfg.a is cfg[a] for mapping nodes, exact list / builtin scalar types and mirrored keys; then a '
+             'history of re-evaluations of cfg.ayns.source, mutations of the evaluated config and deep copies must leave the source snapshot '
+             '(structure + public flags) unchanged and every fresh evaluation equal to the first.',
+        note='Function / path nodes live under dedicated keys (merging onto them is C13 territory); merge-failing sequences are skipped and counted.',
+        design='4/C11'),
     'C12': dict(
         technique='grammar-based differential testing (Hypothesis): generated python programs and f-strings vs CPython exec/eval in the same process, over build histories; crash guard for interpreter death',
         text='Programs from a grammar covering expressions, def/closures/lambdas, comprehensions, branches, loops, try/finally, with, imports, '
